@@ -174,7 +174,7 @@ def gen_history(r, name, profile):
         else:
             L.append("lone 40")
 
-    def dump_all():
+    def dump_all(final=False):
         """attach every live vgroup and read everything back"""
         for k in sh.alive("g"):
             L.append("vgattach 15 @%d %s" % (k, r.choice(["r", "w"])))
@@ -185,7 +185,9 @@ def gen_history(r, name, profile):
             L.append("getclass 15")
             L.append("msize 15")
             L.append("vgdetach 15")
-        L.extend(["iter", "vsiter", "lone 64", "vslone 64", "getvgroupsf 0 64"])
+        L.extend(["iter", "vsiter", "getvgroupsf 0 64"])
+        if final or r.random() < 0.25:
+            L.extend(["lone 64", "vslone 64"])
 
     def detach_all(observe_first):
         hs_ = list(sh.gh.keys())
@@ -353,7 +355,7 @@ def gen_history(r, name, profile):
     if r.random() < 0.3:
         dump_all()
     L.append("reopen")
-    dump_all()
+    dump_all(True)
     return L
 
 
@@ -665,9 +667,14 @@ def replay(ctx, path):
     lines = [l for l in open(path).read().splitlines() if l.strip() and not l.startswith("#")]
     rc, R, S, M, flat, res = run_all(ctx, [lines], "replay")
     bad = False
+    s_off = m_off = False        # nothing is compared after the first operation outside the domain
     for i, l in enumerate(flat):
-        okS = S[i] in ("unspec", "nospec", "skip", "history") or R[i] == S[i]
-        okM = M[i] in ("unspec", "nospec", "skip", "history") or R[i] == M[i]
+        if l.startswith("history "):
+            s_off = m_off = False
+        s_off = s_off or S[i] == "unspec"
+        m_off = m_off or M[i] == "unspec"
+        okS = s_off or S[i] in ("nospec", "skip", "history") or R[i] == S[i]
+        okM = m_off or M[i] in ("nospec", "skip", "history") or R[i] == M[i]
         mark = "  " if okS and okM else "!!"
         bad = bad or not (okS and okM)
         print("%s %-44s R: %-36s M: %-36s S: %s" % (mark, res[i][:44], R[i][:36], M[i][:36], S[i][:60]))
